@@ -58,7 +58,7 @@ def model(ctx):
     r2 = ctx.tlc("Remap", rm_cfg(sizes, False, [2], [2], "MechObserved", ["KindRight"]), what="observed mechanism: KindRight (expected to be refuted)", count=False)
     if r2.violated != "KindRight":
         raise Machinery("TLC did not refute KindRight under MechObserved")
-    r3 = ctx.tlc_ok("Remap", rm_cfg([2], True, ks, p2, "MechIntended", ["KindRight", "DimsLaw", "Emit"]), what="call matrix: data kind x leading dims x destination kind x coordinate type x method x k x power")
+    r3 = ctx.tlc_ok("Remap", rm_cfg([2], True, ks, p2, "MechIntended", ["KindRight", "DimsLaw", "Emit", "EmitD"]), what="call matrix: data kind x leading dims x destination kind x coordinate type x method x k x power")
     matrix = []
     seen = set()
     for v in r3.prints:
@@ -72,6 +72,13 @@ def model(ctx):
     if not matrix:
         raise Machinery("no call matrix generated")
     matrix.sort(key=lambda m: (m["kind"], m["remapTo"], m["coord"], m["method"], m["k"], m["power"], len(m["lead"])))
+    global DCASES
+    DCASES = []
+    for v in r3.prints:
+        if isinstance(v, tuple) and len(v) == 2 and v[0] == "D":
+            DCASES = sorted((dict(x) for x in v[1]), key=lambda d: (d["dtype"], d["meth"], d["level"]))
+    if not DCASES:
+        raise Machinery("no dtype cases generated")
     return predicted, matrix
 
 
@@ -525,6 +532,174 @@ def remap_histories(ctx, rng):
     ctx.sample({"remap_history": [s.get("call", "recentre") for s in uniq[len(uniq) // 2]], "differs_from_previous": [s["diff"] for s in uniq[len(uniq) // 2]]})
 
 
+# =============================================================================== dtype of the remapped variable
+DCASES = []
+
+
+def dtype_cases(ctx):
+    """The dtype cases TLC enumerated (Remap!DTypeCases), face data of one source remapped to the nodes,
+    edge centres and face centres of one destination."""
+    import xarray as xr
+
+    ux = hux.import_ux()
+    src = catalog.entries(name="cuboctahedron", rot=0, cut=0)[0]
+    dst = catalog.entries(name="rhombicuboctahedron", rot=0, cut=0)[0]
+    n_done = 0
+    for coord in ("spherical", "cartesian"):
+        for rt in X.KINDS:
+            gs, gd = X.build_grid(src), X.build_grid(dst)
+            n = int(gs.n_face)
+            # which sources a destination point uses, from float64 tracers of the same calls
+            pick = [int(round(x)) for x in ux.UxDataArray(np.arange(float(n)), dims=["n_face"], uxgrid=gs, name="v").remap.nearest_neighbor(gd, remap_to=rt, coord_type=coord).values]
+            supp = {}
+            for k in (2, 3):
+                W = np.asarray(ux.UxDataArray(np.eye(n), dims=["t", "n_face"], uxgrid=gs, name="w").remap.inverse_distance_weighted(gd, remap_to=rt, coord_type=coord, k=k, power=2).values)
+                supp[k] = [[int(a) for a in np.nonzero(W[:, i] > 0)[0]] for i in range(W.shape[1])]
+            for dc in DCASES:
+                dt = np.dtype(dc["dtype"])
+                if dc["dtype"] == "bool":
+                    ramp = (np.arange(n) % 2).astype(dt)
+                elif dc["dtype"] == "uint8":
+                    ramp = (np.arange(n) * 3 + 1).astype(dt)
+                else:
+                    ramp = (np.arange(n) * 3 - 11).astype(dt)
+                fields = [("ramp", ramp, None)] + [("const %d" % c, np.full(n, c).astype(dt), c) for c in sorted(dc["consts"])]
+                key = "dtype:%s/%s/%s/%s->%s" % (dc["dtype"], dc["meth"], dc["level"], coord, rt)
+                sig = {"class": "dtype", "dtype": dc["dtype"], "method": dc["meth"], "level": dc["level"], "coord": coord}
+                for fname, field, cval in fields:
+                    try:
+                        kw = {"remap_to": rt, "coord_type": coord}
+                        if dc["level"] == "da":
+                            obj = ux.UxDataArray(field.copy(), dims=["n_face"], uxgrid=gs, name="v")
+                        else:
+                            obj = ux.UxDataset(xr.Dataset({"v": (["n_face"], field.copy())}), uxgrid=gs)
+                        if dc["meth"] == "nn":
+                            out = obj.remap.nearest_neighbor(gd, **kw)
+                        else:
+                            out = obj.remap.inverse_distance_weighted(gd, k=int(dc["meth"][3:]), power=2, **kw)
+                        out = out if dc["level"] == "da" else out["v"]
+                        vals = np.asarray(out.values)
+                        n_done += 1
+                    except Exception as e:  # noqa
+                        ctx.violation(key + "/" + fname, "Raises", detail="%s: %s" % (type(e).__name__, str(e)[:160]), replay={"case": {k_: (sorted(v_) if isinstance(v_, (set, frozenset)) else v_) for k_, v_ in dc.items()}, "field": fname}, sig=sig)
+                        continue
+                    rp = {"source": "cuboctahedron/r0/c0 face data", "destination": "rhombicuboctahedron/r0/c0 " + rt, "dtype": dc["dtype"], "method": dc["meth"], "level": dc["level"], "coord": coord, "field": fname, "data": [x.item() for x in field], "result": [x.item() for x in vals], "result_dtype": str(vals.dtype)}
+                    if dc["meth"] == "nn":
+                        if vals.dtype != dt:
+                            ctx.violation(key + "/" + fname, "DTypeKept", detail={"source": str(dt), "result": str(vals.dtype)}, replay=rp, sig=sig)
+                        if [x.item() for x in vals] != [field[c].item() for c in pick]:
+                            ctx.violation(key + "/" + fname, "NearestValue", detail="a destination value is not exactly the value of its nearest source", replay=rp, sig=sig)
+                    else:
+                        k = int(dc["meth"][3:])
+                        integral = vals.dtype.kind in "iub"  # the result is read in ITS dtype
+                        tol = 0 if integral else 1e-9 * max(1.0, float(np.max(np.abs(field.astype(float)))))
+                        lo = np.array([min(field[a].item() for a in s_) for s_ in supp[k]], dtype=float)
+                        hi = np.array([max(field[a].item() for a in s_) for s_ in supp[k]], dtype=float)
+                        v = vals.astype(float)
+                        bad = np.nonzero((v < lo - tol) | (v > hi + tol))[0]
+                        if bad.size:
+                            ctx.violation(key + "/" + fname, "BetweenMinMax", detail={"result_dtype": str(vals.dtype), "first": [(int(i), float(v[i]), float(lo[i]), float(hi[i])) for i in bad[:3]]}, replay=rp, sig=sig)
+                        if cval is not None and np.any(np.abs(v - float(cval)) > tol):
+                            ctx.violation(key + "/" + fname, "ConstantReproduced", detail={"result_dtype": str(vals.dtype), "constant": cval, "result": sorted(set(x.item() for x in vals))[:4]}, replay=rp, sig=sig)
+    ctx.count(n_done, None)
+    ctx.traces += n_done
+    ctx.note("dtype_cases(TLC) x coord x remap_to x {ramp, constants} remap calls", n_done)
+
+
+# =============================================================================== polar caps
+CAP_MARGIN = 1e-9  # rad
+
+
+def run_cap_pair(job):
+    """Remap between two polar-cap meshes (elements 0.01 .. 1 degree from a pole, all centres derived by the
+    library); the nearest source / the IDW support are judged by a float brute force on independently
+    computed exact directions (tie margin 1e-9 rad); spherical and Cartesian remaps must agree."""
+    pole, cap = job["pole"], job["cap"]
+    ux = hux.import_ux()
+    src = X.cap_mesh(pole, cap["places"], cap["unit_inv"])
+    dst = X.cap_mesh(pole, cap["places"], cap["unit_inv"], shift=(1, 0))
+    fails, n_ans = [], 0
+    try:
+        g0s, g0d = X.build_grid(src), X.build_grid(dst)
+        sref = {k: X.cap_reference(src, g0s, k) for k in X.KINDS}
+        dref = {k: X.cap_reference(dst, g0d, k) for k in X.KINDS}
+    except Exception as e:  # noqa
+        return {"pole": pole, "fails": [("Raises", "grids", "%s: %s" % (type(e).__name__, str(e)[:160]), {})], "n": 0}
+    places = {"face centers": dst["face_place"]}
+    for kind in X.KINDS:
+        for rt in X.KINDS:
+            S, D = sref[kind], dref[rt]
+            ang = np.array([[lattice_ang(d, s_) for s_ in S] for d in D])  # (n_dst, n_src)
+            chosen = {}
+            for coord in ("spherical", "cartesian"):
+                call = "%s->%s %s" % (kind, rt, coord)
+                sig = {"class": "polar_cap", "pole": pole, "kind": kind, "remap_to": rt, "coord": coord}
+                try:
+                    gs, gd = X.build_grid(src), X.build_grid(dst)
+                    n_src = S.shape[0]
+                    da = ux.UxDataArray(np.arange(float(n_src)), dims=[X.DIMS[kind]], uxgrid=gs, name="v")
+                    out = np.asarray(da.remap.nearest_neighbor(gd, remap_to=rt, coord_type=coord).values)
+                    pick = [int(round(x)) for x in out]
+                    chosen[coord] = pick
+                    n_ans += len(pick)
+                    bad = [i for i, c in enumerate(pick) if not (0 <= c < n_src) or ang[i, c] > ang[i].min() + CAP_MARGIN]
+                    if bad or len(pick) != D.shape[0]:
+                        fails.append(("NearestSource", "nn " + call, {"n_wrong": len(bad), "of": len(pick), "first": [(i, pick[i], int(np.argmin(ang[i])), float(np.degrees(ang[i].min()))) for i in bad[:3]]}, sig))
+                    k = 3
+                    idw = ux.UxDataArray(np.eye(n_src), dims=["t", X.DIMS[kind]], uxgrid=gs, name="w")
+                    W = np.asarray(idw.remap.inverse_distance_weighted(gd, remap_to=rt, coord_type=coord, k=k, power=2).values)  # (n_src, n_dst)
+                    n_ans += W.shape[1]
+                    if np.min(W) < -1e-12 or np.max(np.abs(W.sum(axis=0) - 1.0)) > 1e-9:
+                        fails.append(("ConvexCombination", "idw " + call, {"min": float(np.min(W))}, sig))
+                    bs, bm = [], []
+                    for i in range(W.shape[1]):
+                        supp = [int(x) for x in np.nonzero(W[:, i] > 0)[0]]
+                        kth = np.sort(ang[i])[k - 1]
+                        if len(supp) != k or any(ang[i, a] > kth + CAP_MARGIN for a in supp):
+                            bs.append(i)
+                        if any(ang[i, a] < ang[i, b] - CAP_MARGIN and W[a, i] < W[b, i] * (1 - 1e-9) for a in supp for b in supp):
+                            bm.append(i)
+                    if bs:
+                        fails.append(("SupportNotNearest", "idw " + call, {"n_wrong": len(bs), "of": W.shape[1], "first": bs[:3]}, sig))
+                    if bm:
+                        fails.append(("WeightsMonotone", "idw " + call, {"n_wrong": len(bm), "of": W.shape[1], "first": bm[:3]}, sig))
+                except Exception as e:  # noqa
+                    fails.append(("Raises", call, "%s: %s" % (type(e).__name__, str(e)[:160]), sig))
+            if len(chosen) == 2:
+                dis = [i for i, (a, b) in enumerate(zip(chosen["spherical"], chosen["cartesian"])) if a != b and 0 <= a < S.shape[0] and 0 <= b < S.shape[0] and abs(ang[i, a] - ang[i, b]) > CAP_MARGIN]
+                if dis:
+                    fails.append(("SystemsAgree", "nn %s->%s" % (kind, rt), {"n_disagree": len(dis), "first": [(i, chosen["spherical"][i], chosen["cartesian"][i]) for i in dis[:3]]}, {"class": "polar_cap", "pole": pole, "kind": kind, "remap_to": rt}))
+    return {"pole": pole, "fails": fails, "n": n_ans}
+
+
+def lattice_ang(u, v):
+    from harness import lattice
+
+    return lattice.ang_between(u, v)
+
+
+def cap_plan(ctx):
+    r = ctx.tlc_ok("NearestMC", "INIT Init\nNEXT Next\nCONSTANTS\n K = 1\n Extra <- ExtraPts\n NS = 3\n QSet <- QPole\nINVARIANT EmitCap\nCHECK_DEADLOCK FALSE\n", what="polar-cap plan (places, poles, unit) from Nearest!CapPlan", workers=1)
+    for v in r.prints:
+        if isinstance(v, tuple) and len(v) == 2 and v[0] == "CAP":
+            return {"places": list(v[1]["places"]), "poles": list(v[1]["poles"]), "unit_inv": int(v[1]["unit_inv"])}
+    raise Machinery("the polar-cap plan was not printed")
+
+
+def polar_caps(ctx):
+    cap = cap_plan(ctx)
+    res = pmap(run_cap_pair, [{"pole": p, "cap": cap} for p in cap["poles"]], chunk=1, nproc=2)
+    total = 0
+    for r in res:
+        total += r["n"]
+        for clause, call, detail, sig in r["fails"]:
+            ctx.violation("polar_cap_%s::%s" % ("N" if r["pole"] > 0 else "S", call), clause, detail=detail, replay={"source": "harness.x_c11.cap_mesh(%d, %s, %d)" % (r["pole"], cap["places"], cap["unit_inv"]), "destination": "the same shifted by (1, 0) units", "call": call}, sig=sig)
+    ctx.count(total, None)
+    ctx.traces += total
+    ctx.note("polar_cap_destination_points(float brute force on exact directions, 1e-9 rad tie margin)", total)
+    ctx.note("polar_cap_plan(from TLC)", cap)
+
+
 # =============================================================================== run
 def run(ctx):
     rng = random.Random(ctx.seed)
@@ -545,6 +720,8 @@ def run(ctx):
     predicted, matrix = model(ctx)
     X.warm()
     remap_histories(ctx, rng)
+    polar_caps(ctx)
+    dtype_cases(ctx)
     ctx.note("predicted_wrong_kind_patterns(TLC, observed mechanism)", sorted("%s data, same length as %s -> treated as %s" % (k, "+".join(sorted(p)), v) for (k, p), v in predicted.items()))
     X.warm()
     pairs = choose_pairs(rng, thorough)
@@ -633,5 +810,6 @@ def run(ctx):
         "k is exercised up to min(n of the data's kind, n_node): the library itself refuses k > n_node",
         "destinations with a single point are not exercised",
         "sub-meshes (two opposite cube faces, one octagon) are cut from proved catalogue entries by the harness",
+        "polar caps (elements 0.01 .. 1 degree from a pole, derived centres): beyond 32-bit exact comparison; judged by a float brute force on independently computed exact directions with a 1e-9 rad tie margin; places and poles from Nearest!CapPlan",
         "history clause: 'what the same call gives on freshly built grids' is computed by the same code on new Grid objects and compared to 1e-12",
     ]
